@@ -108,4 +108,29 @@ deriving Repr, DecidableEq
 
 def acceptOnConn (c : Conn) (payloadCluster : Option Nat) : Bool := acceptBroadcast c.captured payloadCluster
 
+/-- The node's own cluster id is STATE (`Agent.cluster_id`, an `ArcSwap`): `cluster set-id` (admin.rs →
+`Agent::set_cluster_id`) replaces it while the long-running tasks keep running.  `handle_broadcasts`,
+`handle_sync`, `serve_sync` and `parallel_sync` call `agent.cluster_id()` at every use, i.e. they decide
+with the CURRENT value of this component. -/
+structure Node where
+  self : Nat
+  cluster : Nat
+deriving Repr, DecidableEq
+
+/-- `Agent::set_cluster_id` -/
+def Node.setCluster (n : Node) (c : Nat) : Node := { n with cluster := c }
+
+/-- the `cluster_id` stamped into every `UniPayload::V1` / `BiPayload::V1` the node writes -/
+def Node.stamp (n : Node) : Nat := n.cluster
+
+def Node.candidates (n : Node) (ms : List Member) : List Member := syncCandidates n.self n.cluster ms
+
+def Node.ring0 (n : Node) (ms : List Member) : List Nat := ring0Targets n.cluster ms
+
+def Node.targets (n : Node) (isLocal : Bool) (ring0 sentTo : List Nat) (ms : List Member) : List Nat :=
+  broadcastTargets n.self n.cluster isLocal ring0 sentTo ms
+
+/-- an inbound connection accepted by the node now -/
+def Node.accept (n : Node) : Conn := ⟨n.cluster⟩
+
 end Corro.ClusterGate
